@@ -41,20 +41,21 @@ BCKLIN_CONFS = {
 }
 
 # Tolerances (relative, see _kind_errors), >= 100 x the largest error seen on the repaired tree (seeds 0..3 and 7 quick, 0 and 1 thorough):
-#   both integrations rk45 at 1e-10          first order 8e-9,   second order 6e-8   -> 1e-6 / 1e-5
-#   rk45 at 1e-10, backward rk45 at 1e-9     first order 3e-8                        -> 1e-5 / 1e-4
-#   configurations with rk23 at 1e-9         first order 7e-7                        -> 1e-4 / 1e-3
-#   rk4/rk38, finest grid (49..97 points)    first order 2e-6, second order (once-refined grid) 1e-5 -> 1e-3 / 1e-2
+#   both integrations rk45 at 1e-10          first order 1.5e-8, second order 6e-8   -> 3e-6 / 3e-5
+#   rk45 at 1e-10, backward rk45 at 1e-9     first order 2.8e-8                      -> 1e-5 / 1e-4
+#   configurations with rk23 at 1e-9         first order 6.4e-7                      -> 1e-4 / 1e-3
+#   rk4/rk38, finest grid (49..97 points)    first order 2.3e-5, second order (once-refined grid) 7.6e-5 -> 3e-3 / 3e-2
 #   linear system, tight backward, inaccurate forward: dL/dy0 5e-11 -> 1e-6
+# The mutations tried (sign, missing term, index shifted by one, options ignored, detached copies) give errors of 1e-2 .. 1.
 def tol_tight(conf):
     if "23" in conf:
         return (1e-4, 1e-3)
     if conf == "rk45_btol":
         return (1e-5, 1e-4)
-    return (1e-6, 1e-5)
+    return (3e-6, 3e-5)
 
 
-TOL_GRID4 = (1e-3, 1e-2)
+TOL_GRID4 = (3e-3, 3e-2)
 TOL_BCKLIN = 1e-6
 # refinement test: required error reduction per halving (expected 1/16 and 1/2; observed <= 0.13 and <= 0.56 above the floor).
 # An error below the floor is not required to shrink: that small, the leading error term of a component can cancel by accident and
@@ -85,8 +86,8 @@ LEVEL_TEXT = ("Held on every generated case of the run: 5 ODE families with clos
               "non-leaf) x 5 cotangent patterns x increasing/decreasing, uniform/ragged grids x first order (both backward code paths) and "
               "second order; every gradient incl. d/dts[0] compared with autograd of the closed form from the same leaves; unused tensors "
               "must get None/0.")
-LEVEL_NOTE = ("Relative tolerance 1e-6 / 1e-5 (first / second order; 1e-4 / 1e-3 with rk23 at 1e-9) for adaptive integrators at 1e-10; "
-              "fixed-step methods are decided on a twice-refined grid (order-of-convergence test + 1e-3 on the finest grid; Euler by the "
+LEVEL_NOTE = ("Relative tolerance 3e-6 / 3e-5 (first / second order; 1e-4 / 1e-3 with rk23 at 1e-9) for adaptive integrators at 1e-10; "
+              "fixed-step methods are decided on a twice-refined grid (order-of-convergence test + 3e-3 on the finest grid; Euler by the "
               "order test alone); trusts torch.linalg.matrix_exp and its autograd formulas.")
 RULE = ("seeded sampling over family x method configuration x parameter mode x requires-grad subset x cotangent pattern x direction x grid "
         "x order, plus directed classes (graph-recording backward w.r.t. ts for every adaptive configuration; one tensor supplied in two "
@@ -99,7 +100,7 @@ ASSUMPTIONS = [
     "(smallest/largest spacing >= 0.03 for adaptive, >= 1/3 for fixed-step methods)",
     "linear systems: A = -0.3 I + 0.7 N(0,1)/sqrt(n), scale 0.5..1.2, modulation 1 + b cos(w t) with b in 0.3..0.8, w in 1..3",
     "logistic: y0/K in 0.2..0.9 (no blow-up in either time direction)",
-    "adaptive integrators are run with atol=rtol=1e-10 (rk45) or 1e-9 (rk23); comparison tolerance 1e-6 / 1e-5 (backward at 1e-9: 1e-5 / 1e-4; with rk23: 1e-4 / 1e-3) "
+    "adaptive integrators are run with atol=rtol=1e-10 (rk45) or 1e-9 (rk23); comparison tolerance 3e-6 / 3e-5 (backward at 1e-9: 1e-5 / 1e-4; with rk23: 1e-4 / 1e-3) "
     "relative to the largest reference gradient of the leaf kind, floored at 1e-2 * max(largest reference gradient of any leaf, "
     "largest cotangent entry)",
     "fixed-step methods: base grids of 13..25 points (Euler 49) with spacing ratio <= 3, refined twice by midpoints; required error "
@@ -170,8 +171,8 @@ def cases(seed, tier):
                 d = _common(rng, {"group": "adaptive_ts_graph", "seed": sub_seed(seed, "c08ts", k)})
                 d.update(family=fam, conf=conf, order=order, cg=1, rg_ts=True, nt=rng.choice([3, 4]), tuple=False,
                          cot=rng.choice(["dense", "one", "two", "last"]))
-                if order == 2 and "23" in conf and not (fam == "linsys" and quick is False):
-                    d["nt"] = 3
+                if order == 2 and "23" in conf:
+                    d["nt"] = 3          # cost: the backward of an rk23 backward at 1e-9
                 out.append(d)
                 k += 1
     # ---- fixed-step integrators (and mixed fixed/adaptive): refinement protocol
@@ -569,7 +570,6 @@ def differentiate(obs, desc, P, conf, ts_used, cot_sel, stride, order, cg, tag):
     leaves = [l for _, _, l in P.leaves]
     kinds = [k for k, _, _ in P.leaves]
     all_leaves = leaves + ([P.unused] if P.unused is not None else [])
-    cls = conf[3] if len(conf) > 3 else "tight"
     mcls = "%s:%s" % (tag, "cg" if cg else "nocg")
     try:
         with WarnLog():
@@ -584,7 +584,6 @@ def differentiate(obs, desc, P, conf, ts_used, cot_sel, stride, order, cg, tag):
         obs.check(isinstance(yt, (list, tuple)) and len(ylist) == len(P.shapes), "tuple_struct:%s" % tag,
                   "tuple state: returned %s of length %d" % (type(yt).__name__, len(ylist)))
     Yref = _aslist(P.ref(ts_used, P.y0, P.th))
-    ntu = ts_used.shape[0]
     ok_shape = len(ylist) == len(Yref) and all(tuple(a.shape) == tuple(b.shape) for a, b in zip(ylist, Yref))
     obs.check(ok_shape, "shape:%s" % tag, "trajectory shapes %s, expected %s" % ([tuple(a.shape) for a in ylist], [tuple(b.shape) for b in Yref]))
     if not ok_shape:
@@ -690,8 +689,6 @@ def run_case(desc):
         conf = BCKLIN_CONFS[desc["conf"]] + ("tight", None)
     else:
         conf = CONFS[desc["conf"]]
-    cls = conf[3]
-    adaptive_b = (conf[2] or {}).get("method", conf[0]) in (None, "rk45", "rk23")
     cot_sel = cot_indices(desc, rng)
     order, cg = desc["order"], desc["cg"]
     kinds = sorted({k for k, _, _ in P.leaves})
